@@ -1,19 +1,25 @@
 import VoluteModel.Props.C05
+import VoluteModel.Lemmas.Cover
+import VoluteModel.Lemmas.Group
 
 /-!
-# C04 - P/N/NPN canonization returns the orbit minimum (stage 1)
+# C04 - P/N/NPN canonization returns the orbit minimum
 
-Proved here for every function of n <= 7 variables:
+Proved for every function of n <= 8 variables (the range the property quantifies over):
  * the three canonizations terminate normally (never `none` = panic), including n = 0, 1;
- * the representative is one of the tables visited by the walk, each visited table is the image
-   of the input under the group element recorded by the certificate (C05), and no visited table
-   is smaller than the representative in the library's own order (which is the numeric order, C08);
- * the walk is closed (it ends on the input), so the input itself is among the visited tables.
-`orbit_min_partial` is the statement "minimum over the visited group elements".
-TARGET (stage 2): "the visited certificates are ALL n!, 2^(n+1), n!*2^(n+1) group elements"
-(Hamiltonicity of the sequences, by kernel evaluation + counting), which turns the partial
-statement into the full orbit minimum.  Until then the coverage of the group is checked on the
-real sequences by the oracle (`canonseq`) and on the results by independent orbit enumeration.
+ * `p_orbit_min`, `n_orbit_min`, `npn_orbit_min`: the representative is the image of f under the
+   returned certificate (so it is in the orbit), and it is numerically <= the image of f under
+   EVERY element of the group - every permutation of the inputs (P), every complementation mask
+   of n+1 bits (N), every pair (NPN).  "Image of f under (perm, mask)" is the relation `CertRel`
+   of C05; a certificate determines the table (`cert_unique`).
+   The proof: minimum over the visited group elements (`orbit_min_partial`, from the walk
+   invariant) + coverage (`Lemmas/Cover.lean`): the walk visits every group element, because the
+   permutations / masks before each step are pairwise distinct and there are n! / 2^n of them
+   (kernel-evaluated on the sequences in use), and a duplicate-free list of n! permutations of
+   0..n-1 contains them all (`Lemmas/Count.lean`, the one place where a Mathlib module is used).
+ * `*_unique`: the representative is the only minimum, hence the same for any two functions with
+   the same orbit, and canonizing a representative returns it.
+The library's order is the numeric order of the table value (C08), `toNatLE`.
 -/
 
 namespace VoluteModel.Props.C04
@@ -35,30 +41,30 @@ theorem ltT_false_iff (a b : Array W) (h : a.size = b.size) :
     · have : toNatLE a.toList = toNatLE b.toList := by omega
       rw [Nat.compare_eq_eq.mpr this]; rfl
 
-/-- no panic: P, N and NPN canonization return normally for every function of 0..7 variables -/
-theorem no_panic (n : Nat) (h7 : n ≤ 7) (f : Array W) (hf : WF n f) :
+/-- no panic: P, N and NPN canonization return normally for every function of 0..8 variables -/
+theorem no_panic (n : Nat) (h8 : n ≤ 8) (f : Array W) (hf : WF n f) :
     (pCanonization n f).isSome = true ∧ (nCanonization n f).isSome = true ∧ (npnCanonization n f).isSome = true := by
   have hp : (pCanonization n f).isSome = true := by
     by_cases h2 : 2 ≤ n
-    · obtain ⟨c, perm, h, _⟩ := p_certificate n h2 h7 f hf; rw [h]; rfl
+    · obtain ⟨c, perm, h, _⟩ := p_certificate n h2 h8 f hf; rw [h]; rfl
     · rw [(p_small n (by omega) f).1]; rfl
   have hn : (nCanonization n f).isSome = true := by
     by_cases h1 : 1 ≤ n
-    · obtain ⟨c, mask, h, _⟩ := n_certificate n h1 h7 f hf; rw [h]; rfl
+    · obtain ⟨c, mask, h, _⟩ := n_certificate n h1 h8 f hf; rw [h]; rfl
     · have h0 : n = 0 := by omega
       subst h0
       obtain ⟨c, mask, h, _⟩ := n_zero f hf; rw [h]; rfl
   refine ⟨hp, hn, ?_⟩
   by_cases h2 : 2 ≤ n
-  · obtain ⟨c, perm, mask, h, _⟩ := npn_certificate n h2 h7 f hf; rw [h]; rfl
+  · obtain ⟨c, perm, mask, h, _⟩ := npn_certificate n h2 h8 f hf; rw [h]; rfl
   · rw [npn_small n (by omega) f]
     cases hx : nCanonization n f with
     | none => rw [hx] at hn; cases hn
     | some r => rfl
 
-/-- minimum over the visited group elements (partial form of the orbit minimum):
-    for every macro-step index j the table reached there - the image of f under the certificate
-    `certAt j` - is numerically >= the representative, and the representative is such a table -/
+/-- minimum over the visited group elements: for every macro-step index j the table reached
+    there - the image of f under the certificate `certAt j` - is numerically >= the
+    representative, and the representative is such a table -/
 theorem orbit_min_partial (n : Nat) (f c : Array W) (perm : Array Nat) (mask : Nat) (ms : List (List Elem))
     (hs : f.size = tableSize n) (r : Result n f c perm mask ms) :
     (∃ k, k ≤ ms.length ∧ c = stateAt (applyElems n) f ms k) ∧
@@ -79,14 +85,299 @@ theorem le_input (n : Nat) (f c : Array W) (perm : Array Nat) (mask : Nat) (ms :
   have := (orbit_min_partial n f c perm mask ms hs r).2 0 (Nat.zero_le _)
   simpa [stateAt] using this.2
 
-/-- NPN, all together for n = 2..7 -/
-theorem npn_partial (n : Nat) (h2 : 2 ≤ n) (h7 : n ≤ 7) (f : Array W) (hf : WF n f) :
-    ∃ c perm mask sw fl, npnCanonization n f = some (c, perm, mask) ∧ swapsFor n = some sw ∧ flipsFor n = some fl ∧
-      Result n f c perm mask (macroNPN sw fl) := by
-  obtain ⟨sw, hsw, hs⟩ := swapsFor_facts n h2 h7
-  obtain ⟨fl, hfl', hfl⟩ := flipsFor_facts n (by omega) h7
+/-- every visited table is well formed -/
+theorem stateAt_WF (n : Nat) (f : Array W) (hf : WF n f) (ms : List (List Elem))
+    (hsafe : Safe n (Array.range n, 0) ms.flatten) (j : Nat) : WF n (stateAt (applyElems n) f ms j) := by
+  rw [stateAt_flatten]
+  exact applyElems_WF n f hf _ (safe_valid n _ _ (Safe_prefix n _ ms j hsafe))
+
+/-- from "the walk reaches the certificate (sigma, mu)" to "the representative is <= the image of f
+    under (sigma, mu)" -/
+theorem min_of_cover (n : Nat) (f c : Array W) (perm : Array Nat) (mask : Nat) (ms : List (List Elem))
+    (hf : WF n f) (hsafe : Safe n (Array.range n, 0) ms.flatten) (r : Result n f c perm mask ms)
+    (σ : Array Nat) (μ : Nat) (hσ : IsPerm n σ) (hcov : ∃ j, j ≤ ms.length ∧ certAt n ms j = (σ, μ))
+    (t : Array W) (ht : WF n t) (hrel : CertRel n f t σ μ) : toNatLE c.toList ≤ toNatLE t.toList := by
+  obtain ⟨j, hj, hc⟩ := hcov
+  obtain ⟨hr, hle⟩ := (orbit_min_partial n f c perm mask ms hf.1 r).2 j hj
+  rw [hc] at hr
+  have : t = stateAt (applyElems n) f ms j :=
+    cert_unique n f t _ σ μ hσ ht (stateAt_WF n f hf ms hsafe j) hrel hr
+  rw [this]; exact hle
+
+/-- n! from the table of `SeqFacts` -/
+theorem fact_eq (n : Nat) (h8 : n ≤ 8) : n.factorial = factTable[n]?.getD 0 := by
+  have := factorial_le8 ⟨n, by omega⟩
+  exact this
+
+/-- **C04, P**: the representative is in the orbit of f under input permutations and is <= every
+    member of that orbit (n = 2..8; n <= 1 has the trivial group, `p_small`) -/
+theorem p_orbit_min (n : Nat) (h2 : 2 ≤ n) (h8 : n ≤ 8) (f : Array W) (hf : WF n f) :
+    ∃ c perm, pCanonization n f = some (c, perm) ∧ WF n c ∧ IsPerm n perm ∧ CertRel n f c perm 0 ∧
+      ∀ σ t, IsPerm n σ → WF n t → CertRel n f t σ 0 → toNatLE c.toList ≤ toNatLE t.toList := by
+  obtain ⟨sw, hsw, hs, hcov⟩ := swapsFor_facts n h2 h8
+  obtain ⟨c, perm, h1, r⟩ := p_result n f hf h2 sw hsw hs
+  have hsafe := (p_safe n sw hs).1
+  have hwf : WF n c := by
+    obtain ⟨k, rk⟩ := r
+    rw [rk.table]; exact stateAt_WF n f hf _ hsafe k
+  refine ⟨c, perm, h1, hwf, (result_wellformed n f c perm 0 _ hsafe r).1, r.rel, ?_⟩
+  intro σ t hσ ht hrel
+  obtain ⟨j, hj, hc⟩ := p_cover n _ (fact_eq n h8) sw hs hcov.distinct hcov.length σ hσ
+  exact min_of_cover n f c perm 0 _ hf hsafe r σ 0 hσ ⟨j, by rw [macroP_length]; omega, hc⟩ t ht hrel
+
+/-- **C04, N**: the representative is <= the image of f under every complementation mask
+    (inputs and output), n = 1..8 -/
+theorem n_orbit_min (n : Nat) (h1 : 1 ≤ n) (h8 : n ≤ 8) (f : Array W) (hf : WF n f) :
+    ∃ c mask, nCanonization n f = some (c, mask) ∧ WF n c ∧ mask < 2 ^ (n + 1) ∧
+      CertRel n f c (Array.range n) mask ∧
+      ∀ μ t, μ < 2 ^ (n + 1) → WF n t → CertRel n f t (Array.range n) μ → toNatLE c.toList ≤ toNatLE t.toList := by
+  obtain ⟨fl, hfl', hfl, hcov⟩ := flipsFor_facts n h1 h8
+  obtain ⟨c, mask, h, r⟩ := n_result n f hf h1 fl hfl' hfl
+  have hsafe := (n_safe n fl hfl).1
+  have hwf : WF n c := by
+    obtain ⟨k, rk⟩ := r
+    rw [rk.table]; exact stateAt_WF n f hf _ hsafe k
+  refine ⟨c, mask, h, hwf, (result_wellformed n f c _ mask _ hsafe r).2, r.rel, ?_⟩
+  intro μ t hμ ht hrel
+  obtain ⟨k, _, hk, hmk⟩ := n_cover n fl hfl hcov.distinct hcov.length μ hμ
+  have hc : certAt n (macroN fl) k = (Array.range n, μ) := by
+    unfold certAt
+    rw [certN n _ fl k hk, hmk]
+  exact min_of_cover n f c _ mask _ hf hsafe r (Array.range n) μ (isPerm_range n)
+    ⟨k, by rw [macroN_length]; exact hk, hc⟩ t ht hrel
+
+/-- **C04, NPN**: the representative is <= the image of f under every pair (permutation of the
+    inputs, complementation mask of inputs and output), n = 2..8 -/
+theorem npn_orbit_min (n : Nat) (h2 : 2 ≤ n) (h8 : n ≤ 8) (f : Array W) (hf : WF n f) :
+    ∃ c perm mask, npnCanonization n f = some (c, perm, mask) ∧ WF n c ∧ IsPerm n perm ∧ mask < 2 ^ (n + 1) ∧
+      CertRel n f c perm mask ∧
+      ∀ σ μ t, IsPerm n σ → μ < 2 ^ (n + 1) → WF n t → CertRel n f t σ μ →
+        toNatLE c.toList ≤ toNatLE t.toList := by
+  obtain ⟨sw, hsw, hs, hcs⟩ := swapsFor_facts n h2 h8
+  obtain ⟨fl, hfl', hfl, hcf⟩ := flipsFor_facts n (by omega) h8
   obtain ⟨c, perm, mask, h, r⟩ := npn_result n f hf h2 sw fl hsw hfl' hs hfl
-  exact ⟨c, perm, mask, sw, fl, h, hsw, hfl', r⟩
+  have hsafe := (npn_safe n sw fl hs hfl).1
+  have hwf : WF n c := by
+    obtain ⟨k, rk⟩ := r
+    rw [rk.table]; exact stateAt_WF n f hf _ hsafe k
+  obtain ⟨w1, w2⟩ := result_wellformed n f c perm mask _ hsafe r
+  refine ⟨c, perm, mask, h, hwf, w1, w2, r.rel, ?_⟩
+  intro σ μ t hσ hμ ht hrel
+  exact min_of_cover n f c perm mask _ hf hsafe r σ μ hσ
+    (npn_cover n _ (fact_eq n h8) sw fl hs hfl hcs.distinct hcs.length hcf.distinct hcf.length σ hσ μ hμ) t ht hrel
+
+/-- the minimum is unique: a well-formed table in the orbit that is <= every member of the orbit
+    is the representative (two tables of one size with the same value are equal, C08) -/
+theorem min_unique (n : Nat) (c c' : Array W) (hc : WF n c) (hc' : WF n c')
+    (h1 : toNatLE c.toList ≤ toNatLE c'.toList) (h2 : toNatLE c'.toList ≤ toNatLE c.toList) : c = c' := by
+  have hl : c.toList.length = c'.toList.length := by simp [hc.1, hc'.1]
+  have := toNatLE_inj c.toList c'.toList hl (by omega)
+  exact Array.ext' this
+
+/-! ## the small sizes (trivial permutation group), so that the statements hold for every n <= 8 -/
+
+theorem isPerm_small (n : Nat) (h : n ≤ 1) (σ : Array Nat) (hσ : IsPerm n σ) : σ = Array.range n := by
+  apply Array.ext'
+  rw [Array.toList_range]
+  have hp := hσ.2
+  match n, h with
+  | 0, _ => simpa using hp
+  | 1, _ =>
+    have : List.range 1 = [0] := rfl
+    rw [this] at hp ⊢
+    exact List.perm_singleton.mp hp
+
+/-- P for all n <= 8 -/
+theorem p_orbit_min_all (n : Nat) (h8 : n ≤ 8) (f : Array W) (hf : WF n f) :
+    ∃ c perm, pCanonization n f = some (c, perm) ∧ WF n c ∧ IsPerm n perm ∧ CertRel n f c perm 0 ∧
+      ∀ σ t, IsPerm n σ → WF n t → CertRel n f t σ 0 → toNatLE c.toList ≤ toNatLE t.toList := by
+  by_cases h2 : 2 ≤ n
+  · exact p_orbit_min n h2 h8 f hf
+  · have h1 : n ≤ 1 := by omega
+    refine ⟨f, Array.range n, (p_small n h1 f).1, hf, isPerm_range n, cert_init n f, ?_⟩
+    intro σ t hσ ht hrel
+    rw [isPerm_small n h1 σ hσ] at hrel
+    rw [eq_of_cert_id n f t hf ht hrel]
+
+/-- N for n = 0: the two candidates are f and its complement -/
+theorem n_zero_min (f : Array W) (hf : WF 0 f) :
+    ∃ c mask, nCanonization 0 f = some (c, mask) ∧ WF 0 c ∧ mask < 2 ^ (0 + 1) ∧
+      CertRel 0 f c (Array.range 0) mask ∧
+      ∀ μ t, μ < 2 ^ (0 + 1) → WF 0 t → CertRel 0 f t (Array.range 0) μ → toNatLE c.toList ≤ toNatLE t.toList := by
+  have hnot : CertRel 0 f (notInplace 0 f) (Array.range 0) 1 := by
+    have := cert_elem 0 f f (Array.range 0) 0 Elem.neg hf.1 (by simp) (cert_init 0 f) trivial
+    simpa [applyElem, rstepE] using this
+  have hnwf : WF 0 (notInplace 0 f) := VoluteModel.Props.C01.not_WF 0 f hf.1
+  have hsz : (notInplace 0 f).size = f.size := by simp [notInplace]
+  -- every member of the orbit is f or its complement
+  have horb : ∀ μ t, μ < 2 ^ (0 + 1) → WF 0 t → CertRel 0 f t (Array.range 0) μ → t = f ∨ t = notInplace 0 f := by
+    intro μ t hμ ht hrel
+    have : μ = 0 ∨ μ = 1 := by omega
+    rcases this with rfl | rfl
+    · exact Or.inl (eq_of_cert_id 0 f t hf ht hrel)
+    · exact Or.inr (cert_unique 0 f t _ (Array.range 0) 1 (isPerm_range 0) ht hnwf hrel hnot)
+  unfold nCanonization
+  simp only [if_true]
+  by_cases hc : (cmpTables (notInplace 0 f) f == Ordering.lt) = true
+  · have hlt : ltT (notInplace 0 f) f = true := hc
+    have hle : toNatLE (notInplace 0 f).toList ≤ toNatLE f.toList := by
+      rcases Nat.lt_or_ge (toNatLE f.toList) (toNatLE (notInplace 0 f).toList) with hl | hl
+      · have := (ltT_false_iff (notInplace 0 f) f hsz).mpr (by omega)
+        rw [this] at hlt; cases hlt
+      · exact hl
+    refine ⟨notInplace 0 f, 1, by simp [hc], hnwf, by omega, hnot, ?_⟩
+    intro μ t hμ ht hrel
+    rcases horb μ t hμ ht hrel with rfl | rfl
+    · exact hle
+    · exact Nat.le_refl _
+  · have hlt : ltT (notInplace 0 f) f = false := by
+      unfold ltT; simpa using hc
+    have hle := (ltT_false_iff (notInplace 0 f) f hsz).mp hlt
+    refine ⟨f, 0, by simp [hc], hf, by omega, cert_init 0 f, ?_⟩
+    intro μ t hμ ht hrel
+    rcases horb μ t hμ ht hrel with rfl | rfl
+    · exact Nat.le_refl _
+    · exact hle
+
+/-- N for all n <= 8 -/
+theorem n_orbit_min_all (n : Nat) (h8 : n ≤ 8) (f : Array W) (hf : WF n f) :
+    ∃ c mask, nCanonization n f = some (c, mask) ∧ WF n c ∧ mask < 2 ^ (n + 1) ∧
+      CertRel n f c (Array.range n) mask ∧
+      ∀ μ t, μ < 2 ^ (n + 1) → WF n t → CertRel n f t (Array.range n) μ → toNatLE c.toList ≤ toNatLE t.toList := by
+  by_cases h1 : 1 ≤ n
+  · exact n_orbit_min n h1 h8 f hf
+  · have h0 : n = 0 := by omega
+    subst h0
+    exact n_zero_min f hf
+
+/-- NPN for all n <= 8 -/
+theorem npn_orbit_min_all (n : Nat) (h8 : n ≤ 8) (f : Array W) (hf : WF n f) :
+    ∃ c perm mask, npnCanonization n f = some (c, perm, mask) ∧ WF n c ∧ IsPerm n perm ∧ mask < 2 ^ (n + 1) ∧
+      CertRel n f c perm mask ∧
+      ∀ σ μ t, IsPerm n σ → μ < 2 ^ (n + 1) → WF n t → CertRel n f t σ μ →
+        toNatLE c.toList ≤ toNatLE t.toList := by
+  by_cases h2 : 2 ≤ n
+  · exact npn_orbit_min n h2 h8 f hf
+  · have h1 : n ≤ 1 := by omega
+    obtain ⟨c, mask, h, wc, w2, rel, hmin⟩ := n_orbit_min_all n h8 f hf
+    refine ⟨c, Array.range n, mask, by rw [npn_small n h1 f, h]; rfl, wc, isPerm_range n, w2, rel, ?_⟩
+    intro σ μ t hσ hμ ht hrel
+    rw [isPerm_small n h1 σ hσ] at hrel
+    exact hmin μ t hμ ht hrel
+
+/-! ## classes: same representative exactly when equivalent; representatives are fixed points -/
+
+/-- The argument once, for a set `G` of certificates that contains the identity and is closed
+    under composition and inversion, and a canonization that returns the minimum over `G`. -/
+theorem class_generic (n : Nat) (G : Array Nat → Nat → Prop) (canon : Array W → Option (Array W))
+    (hid : G (Array.range n) 0)
+    (hperm : ∀ σ μ, G σ μ → IsPerm n σ)
+    (hcomp : ∀ σ1 μ1 σ2 μ2, G σ1 μ1 → G σ2 μ2 → G (compPerm σ1 σ2) (compMask n σ2 μ1 μ2))
+    (hinv : ∀ σ μ, G σ μ → G (invPerm n σ) (invMask n σ μ))
+    (hmin : ∀ f, WF n f → ∃ c σ μ, canon f = some c ∧ WF n c ∧ G σ μ ∧ CertRel n f c σ μ ∧
+      ∀ σ' μ' t, G σ' μ' → WF n t → CertRel n f t σ' μ' → toNatLE c.toList ≤ toNatLE t.toList) :
+    (∀ f g, WF n f → WF n g → ((∃ σ μ, G σ μ ∧ CertRel n f g σ μ) ↔ canon f = canon g)) ∧
+    (∀ f c, WF n f → canon f = some c → canon c = some c) := by
+  -- monotonicity: if g is in the orbit of f then canon f <= canon g
+  have mono : ∀ f g cf cg, WF n f → WF n g → (∃ σ μ, G σ μ ∧ CertRel n f g σ μ) →
+      canon f = some cf → canon g = some cg → toNatLE cf.toList ≤ toNatLE cg.toList := by
+    intro f g cf cg hf hg ⟨σ, μ, hG, hrel⟩ h1 h2
+    obtain ⟨cf', σf, μf, e1, _, _, _, minf⟩ := hmin f hf
+    obtain ⟨cg', σg, μg, e2, wg, Gg, relg, _⟩ := hmin g hg
+    rw [h1] at e1; rw [h2] at e2
+    cases e1; cases e2
+    exact minf _ _ cg (hcomp σ μ σg μg hG Gg) wg (cert_comp n f g cg σ σg μ μg (hperm _ _ Gg) hrel relg)
+  constructor
+  · intro f g hf hg
+    constructor
+    · rintro ⟨σ, μ, hG, hrel⟩
+      obtain ⟨cf, σf, μf, e1, wf, _, _, _⟩ := hmin f hf
+      obtain ⟨cg, σg, μg, e2, wg, _, _, _⟩ := hmin g hg
+      have a := mono f g cf cg hf hg ⟨σ, μ, hG, hrel⟩ e1 e2
+      have b := mono g f cg cf hg hf ⟨_, _, hinv σ μ hG, cert_inv n f g σ μ (hperm _ _ hG) hrel⟩ e2 e1
+      rw [e1, e2, min_unique n cf cg wf wg a b]
+    · intro heq
+      obtain ⟨cf, σf, μf, e1, _, Gf, relf, _⟩ := hmin f hf
+      obtain ⟨cg, σg, μg, e2, _, Gg, relg, _⟩ := hmin g hg
+      rw [e1, e2] at heq
+      cases heq
+      exact ⟨_, _, hcomp σf μf _ _ Gf (hinv σg μg Gg),
+        cert_comp n f cf g σf _ μf _ (hperm _ _ (hinv σg μg Gg)) relf (cert_inv n g cf σg μg (hperm _ _ Gg) relg)⟩
+  · intro f c hf hc
+    obtain ⟨c0, σf, μf, e1, wc, Gf, relf, minf⟩ := hmin f hf
+    rw [hc] at e1; cases e1
+    obtain ⟨c', σc, μc, e2, wc', Gc, relc, minc⟩ := hmin c wc
+    have a : toNatLE c'.toList ≤ toNatLE c.toList := minc _ _ c hid wc (cert_init n c)
+    have b : toNatLE c.toList ≤ toNatLE c'.toList :=
+      minf _ _ c' (hcomp σf μf σc μc Gf Gc) wc' (cert_comp n f c c' σf σc μf μc (hperm _ _ Gc) relf relc)
+    rw [e2, min_unique n c' c wc' wc a b]
+
+/-- **C04, NPN classes** (n = 0..8): f and g have the same representative exactly when g is the
+    image of f under an input permutation with input/output complementations; the representative
+    of a representative is itself -/
+theorem npn_classes (n : Nat) (h8 : n ≤ 8) :
+    (∀ f g, WF n f → WF n g →
+      ((∃ σ μ, (IsPerm n σ ∧ μ < 2 ^ (n + 1)) ∧ CertRel n f g σ μ) ↔
+        (npnCanonization n f).map (·.1) = (npnCanonization n g).map (·.1))) ∧
+    (∀ f c, WF n f → (npnCanonization n f).map (·.1) = some c → (npnCanonization n c).map (·.1) = some c) := by
+  apply class_generic n (fun σ μ => IsPerm n σ ∧ μ < 2 ^ (n + 1)) (fun f => (npnCanonization n f).map (·.1))
+  · exact ⟨isPerm_range n, Nat.two_pow_pos _⟩
+  · intro σ μ h; exact h.1
+  · intro σ1 μ1 σ2 μ2 h1 h2
+    exact ⟨compPerm_isPerm n σ1 σ2 h1.1 h2.1, compMask_lt n σ2 μ1 μ2⟩
+  · intro σ μ h
+    exact ⟨invPerm_isPerm n σ h.1, invMask_lt n σ μ⟩
+  · intro f hf
+    obtain ⟨c, perm, mask, h, wc, w1, w2, rel, hmin⟩ := npn_orbit_min_all n h8 f hf
+    refine ⟨c, perm, mask, by rw [h]; rfl, wc, ⟨w1, w2⟩, rel, ?_⟩
+    intro σ μ t hG ht hrel
+    exact hmin σ μ t hG.1 hG.2 ht hrel
+
+/-- **C04, P classes** (n = 0..8) -/
+theorem p_classes (n : Nat) (h8 : n ≤ 8) :
+    (∀ f g, WF n f → WF n g →
+      ((∃ σ μ, (IsPerm n σ ∧ μ = 0) ∧ CertRel n f g σ μ) ↔
+        (pCanonization n f).map (·.1) = (pCanonization n g).map (·.1))) ∧
+    (∀ f c, WF n f → (pCanonization n f).map (·.1) = some c → (pCanonization n c).map (·.1) = some c) := by
+  apply class_generic n (fun σ μ => IsPerm n σ ∧ μ = 0) (fun f => (pCanonization n f).map (·.1))
+  · exact ⟨isPerm_range n, rfl⟩
+  · intro σ μ h; exact h.1
+  · intro σ1 μ1 σ2 μ2 h1 h2
+    obtain ⟨p1, rfl⟩ := h1
+    obtain ⟨p2, rfl⟩ := h2
+    exact ⟨compPerm_isPerm n σ1 σ2 p1 p2, compMask_zero n σ2⟩
+  · intro σ μ h
+    obtain ⟨p, rfl⟩ := h
+    exact ⟨invPerm_isPerm n σ p, invMask_zero n σ⟩
+  · intro f hf
+    obtain ⟨c, perm, h, wc, w1, rel, hmin⟩ := p_orbit_min_all n h8 f hf
+    refine ⟨c, perm, 0, by rw [h]; rfl, wc, ⟨w1, rfl⟩, rel, ?_⟩
+    intro σ μ t hG ht hrel
+    obtain ⟨p, rfl⟩ := hG
+    exact hmin σ t p ht hrel
+
+/-- **C04, N classes** (n = 0..8) -/
+theorem n_classes (n : Nat) (h8 : n ≤ 8) :
+    (∀ f g, WF n f → WF n g →
+      ((∃ σ μ, (σ = Array.range n ∧ μ < 2 ^ (n + 1)) ∧ CertRel n f g σ μ) ↔
+        (nCanonization n f).map (·.1) = (nCanonization n g).map (·.1))) ∧
+    (∀ f c, WF n f → (nCanonization n f).map (·.1) = some c → (nCanonization n c).map (·.1) = some c) := by
+  apply class_generic n (fun σ μ => σ = Array.range n ∧ μ < 2 ^ (n + 1)) (fun f => (nCanonization n f).map (·.1))
+  · exact ⟨rfl, Nat.two_pow_pos _⟩
+  · intro σ μ h; rw [h.1]; exact isPerm_range n
+  · intro σ1 μ1 σ2 μ2 h1 h2
+    obtain ⟨rfl, _⟩ := h1
+    obtain ⟨rfl, _⟩ := h2
+    exact ⟨compPerm_id n, compMask_lt n _ μ1 μ2⟩
+  · intro σ μ h
+    obtain ⟨rfl, _⟩ := h
+    exact ⟨invPerm_id n, invMask_lt n _ μ⟩
+  · intro f hf
+    obtain ⟨c, mask, h, wc, w2, rel, hmin⟩ := n_orbit_min_all n h8 f hf
+    refine ⟨c, Array.range n, mask, by rw [h]; rfl, wc, ⟨rfl, w2⟩, rel, ?_⟩
+    intro σ μ t hG ht hrel
+    obtain ⟨rfl, hμ⟩ := hG
+    exact hmin μ t hμ ht hrel
 
 /-- non-vacuity -/
 example : npnCanonization 3 #[0xe8#64] = some (#[0x17#64], #[1, 0, 2], 7) := by decide +kernel
